@@ -161,10 +161,34 @@ def tables_rule(rep, cfg):
         return
     d = dict(zip(v.args[1], v.args[2:]))
 
+    def exp_mults(n_, item):
+        mults = set()
+        for u in Tm.subterms(n_):
+            if u.op == "pow" and u.args[0] is gv:
+                e = u.args[1]
+                if e.op == "bigint_of":
+                    e = e.args[0]
+                if e.op == "convert":
+                    e = e.args[2]
+                if e is item:
+                    mults.add(1)
+                elif e.op == "imul" and e.args[0] is item and Tm.is_lit(e.args[1]):
+                    mults.add(e.args[1].args[0])
+                elif e.op == "imul" and e.args[1] is item and Tm.is_lit(e.args[0]):
+                    mults.add(e.args[0].args[0])
+        return mults
+
     def fold_facts(t):
-        """(range end, exponent multiplier) of the fold that fills a table"""
+        """(range start, range end, exponent multipliers, node) of the loop / iterator chain that fills a table"""
         res = []
         for s_ in Tm.subterms(t):
+            if s_.op == "seq_map_t":
+                item, body, src = s_.args
+                rng = dict(zip(src.args[1], src.args[2:])) if src.op == "struct" and src.args[0] == "core::ops::Range" else {}
+                mults = exp_mults(body, item)
+                if mults and rng:
+                    res.append((rng.get("start"), rng.get("end"), mults, s_))
+                continue
             if s_.op == "fold":
                 it, item, accs, inits, nexts = s_.args
                 rng = dict(zip(it.args[1], it.args[2:])) if it.op == "struct" and it.args[0] == "core::ops::Range" else {}
